@@ -4,55 +4,190 @@
 package main
 
 import (
+	"bytes"
+	"encoding/json"
 	"flag"
 	"fmt"
 	"os"
+	"os/exec"
 	"sort"
+	"sync"
+	"time"
 
 	"verifharness/internal/rec"
 )
 
+// family: a generator that runs in one process and numbers its own cases.
 type family func(out *rec.Out, rng *rec.Rng, tier string, stats map[string]int)
 
 var families = map[string]family{}
+
+// caseFamily: cases are indexed; case i depends only on (seed, i), so the framework can shard them
+// over child processes (isolation from goroutine leaks / spinning tracers of earlier cases, and
+// parallelism over the 16 cores). Case numbers in the output are idx+1.
+type caseFamily struct {
+	Count func(tier string) int
+	Run   func(out *rec.Out, idx int, rng *rec.Rng, tier string, stats map[string]int)
+	Shard int // cases per child process (default 25)
+	Par   int // child processes in flight (default 8)
+}
+
+var caseFamilies = map[string]*caseFamily{}
+
+func caseRng(seed uint64, idx int) *rec.Rng {
+	return rec.NewRng(seed*1000003 + uint64(idx)*7919 + 17)
+}
+
+func writeStats(path string, stats map[string]int) {
+	if path == "" {
+		return
+	}
+	keys := make([]string, 0, len(stats))
+	for k := range stats {
+		keys = append(keys, k)
+	}
+	sort.Strings(keys)
+	var b bytes.Buffer
+	b.WriteString("{")
+	for i, k := range keys {
+		if i > 0 {
+			b.WriteString(",")
+		}
+		fmt.Fprintf(&b, "%q:%d", k, stats[k])
+	}
+	b.WriteString("}\n")
+	os.WriteFile(path, b.Bytes(), 0o644)
+}
 
 func main() {
 	seed := flag.Uint64("seed", 1, "PRNG seed")
 	tier := flag.String("tier", "quick", "quick|thorough")
 	only := flag.Int("only", 0, "emit only this case number (replay)")
 	statsPath := flag.String("stats", "", "write generator statistics (input distribution) here")
+	child := flag.Bool("child", false, "internal: run cases [from,to) in this process")
+	from := flag.Int("from", 0, "internal")
+	to := flag.Int("to", 0, "internal")
 	flag.Parse()
 	if flag.NArg() < 1 {
 		fmt.Fprintln(os.Stderr, "usage: vh [-seed n] [-tier t] <family>")
 		os.Exit(2)
 	}
-	f, ok := families[flag.Arg(0)]
+	name := flag.Arg(0)
+	stats := map[string]int{}
+	if cf, ok := caseFamilies[name]; ok {
+		if *child {
+			out := rec.NewOut()
+			for i := *from; i < *to; i++ {
+				out.SetNext(i + 1)
+				cf.Run(out, i, caseRng(*seed, i), *tier, stats)
+			}
+			out.Flush()
+			writeStats(*statsPath, stats)
+			return
+		}
+		runSharded(name, cf, *seed, *tier, *only, stats)
+		writeStats(*statsPath, stats)
+		return
+	}
+	f, ok := families[name]
 	if !ok {
-		fmt.Fprintln(os.Stderr, "unknown family", flag.Arg(0))
+		fmt.Fprintln(os.Stderr, "unknown family", name)
 		os.Exit(2)
 	}
 	out := rec.NewOut()
 	out.Only = *only
-	stats := map[string]int{}
 	f(out, rec.NewRng(*seed), *tier, stats)
 	out.Flush()
-	if *statsPath != "" {
-		keys := make([]string, 0, len(stats))
-		for k := range stats {
-			keys = append(keys, k)
-		}
-		sort.Strings(keys)
-		fh, err := os.Create(*statsPath)
-		if err == nil {
-			fmt.Fprint(fh, "{")
-			for i, k := range keys {
-				if i > 0 {
-					fmt.Fprint(fh, ",")
-				}
-				fmt.Fprintf(fh, "%q:%d", k, stats[k])
+	writeStats(*statsPath, stats)
+}
+
+func runSharded(name string, cf *caseFamily, seed uint64, tier string, only int, stats map[string]int) {
+	n := cf.Count(tier)
+	shard := cf.Shard
+	if shard <= 0 {
+		shard = 25
+	}
+	par := cf.Par
+	if par <= 0 {
+		par = 8
+	}
+	type job struct {
+		from, to int
+		out      []byte
+		err      string
+	}
+	var jobs []*job
+	if only > 0 {
+		jobs = append(jobs, &job{from: only - 1, to: only})
+	} else {
+		for a := 0; a < n; a += shard {
+			b := a + shard
+			if b > n {
+				b = n
 			}
-			fmt.Fprintln(fh, "}")
-			fh.Close()
+			jobs = append(jobs, &job{from: a, to: b})
 		}
 	}
+	self, _ := os.Executable()
+	sem := make(chan struct{}, par)
+	var wg sync.WaitGroup
+	var mu sync.Mutex
+	tmpdir, _ := os.MkdirTemp("", "vhstats")
+	defer os.RemoveAll(tmpdir)
+	for k, j := range jobs {
+		wg.Add(1)
+		sem <- struct{}{}
+		go func(k int, j *job) {
+			defer wg.Done()
+			defer func() { <-sem }()
+			sp := fmt.Sprintf("%s/%d.json", tmpdir, k)
+			cmd := exec.Command(self, "-child", "-seed", fmt.Sprint(seed), "-tier", tier,
+				"-from", fmt.Sprint(j.from), "-to", fmt.Sprint(j.to), "-stats", sp, name)
+			var so, se bytes.Buffer
+			cmd.Stdout = &so
+			cmd.Stderr = &se
+			done := make(chan error, 1)
+			cmd.Start()
+			go func() { done <- cmd.Wait() }()
+			select {
+			case err := <-done:
+				if err != nil {
+					j.err = fmt.Sprintf("child %d-%d: %v: %s", j.from, j.to, err, tail(se.String(), 3000))
+				}
+			case <-time.After(20 * time.Minute):
+				cmd.Process.Kill()
+				j.err = fmt.Sprintf("child %d-%d: timeout", j.from, j.to)
+			}
+			j.out = so.Bytes()
+			if b, err := os.ReadFile(sp); err == nil {
+				m := map[string]int{}
+				if json.Unmarshal(b, &m) == nil {
+					mu.Lock()
+					for k, v := range m {
+						stats[k] += v
+					}
+					mu.Unlock()
+				}
+			}
+		}(k, j)
+	}
+	wg.Wait()
+	failed := false
+	for _, j := range jobs {
+		os.Stdout.Write(j.out)
+		if j.err != "" {
+			fmt.Fprintln(os.Stderr, j.err)
+			failed = true
+		}
+	}
+	if failed {
+		os.Exit(1)
+	}
+}
+
+func tail(s string, n int) string {
+	if len(s) > n {
+		return s[len(s)-n:]
+	}
+	return s
 }
